@@ -344,3 +344,27 @@ def def_root(d: Any) -> Any:
     while isinstance(d, tuple) and d and d[0] in ("tuple-elem", "variant-elem", "field", "unpack", "iter-elem"):
         d = d[-1]
     return d
+
+
+def rs_names_reaching(e: Any, defs: dict[str, list[Any]], depth: int = 6, _seen: set | None = None) -> set[str]:
+    """All local/path names met while expanding an expression through local definitions (intermediate names included)."""
+    out: set[str] = set()
+    _seen = _seen if _seen is not None else set()
+    if isinstance(e, tuple):
+        for x in e:
+            if isinstance(x, (dict, tuple)):
+                out |= rs_names_reaching(x, defs, depth, _seen)
+        return out
+    if not isinstance(e, (dict, list)):
+        return out
+    for n in walk(e):
+        if n.get("k") == "path":
+            p = n["p"]
+            out.add(p)
+            if p in defs and depth > 0 and p not in _seen:
+                _seen.add(p)
+                for d in defs[p]:
+                    out |= rs_names_reaching(d, defs, depth - 1, _seen)
+        elif n.get("k") == "mcall":
+            out.add("." + n["m"] + "()")
+    return out
